@@ -132,6 +132,9 @@ func (s *sys) battery(i int, keys []string, bounds []mvx.Bound, shape bool) stri
 				if f := mvx.CompareRange(s.st, root, m, st, en, asc); f != "" {
 					return "iterate" + where + "| " + fmt.Sprintf("root #%d of %d: ", i+1, len(s.roots)) + f
 				}
+				if f := mvx.CompareRangeInclusive(s.st, root, m, st, en, asc); f != "" {
+					return "iterate" + where + "| " + fmt.Sprintf("root #%d of %d: ", i+1, len(s.roots)) + f
+				}
 			}
 		}
 	}
@@ -526,7 +529,7 @@ func main() {
 	workRoot = filepath.Join(vx.Root(), ".work", "c01", fmt.Sprintf("run-%d", os.Getpid()))
 	os.MkdirAll(workRoot, 0o755)
 	r.DistinctSet = "outcomes"
-	r.Rule = "(c) working tree: BFS over all histories of {Set(k,v), Hash(), Proof(a), Get(b), Save} on one real mavl Tree (3-4 keys x 2 values, depth 5/6, plain / prefix / memTree+memVal; the operations of the unsaved batch are part of the state because queries memoise data in the tree): after every Save every saved root is loaded afresh and read, Save's root == Hash() just before it. (a) BFS over all histories of write batches (non-empty values v1/v2 over a colliding key alphabet with the empty key, binary keys and shared prefixes; batch sizes 1..3) chained root to root on the real mavl Store; a state = (list of committed roots, raw database content). After every batch and for every root committed so far: Store.Get of every alphabet key, both unbounded scans, Tree.Size, AVL invariants, and for the newest root Store.IterateRangeByStateHash for every start,end in alphabet+nil in both directions; all repeated after a restart (memdb: new Store object + caches dropped; goleveldb: close and reopen). Plus the deterministic large-batch family (N keys x 4 insertion orders x batch sizes {2N keys at once, 16, 1}, then overwritten in another order). distinct = rebalancing cases (LL/LR/RR/RL/none/overwrite depth), batch sizes, old-root-differs classes, large-tree heights observed"
+	r.Rule = "(c) working tree: BFS over all histories of {Set(k,v), Hash(), Proof(a), Get(b), Save} on one real mavl Tree (3-4 keys x 2 values, depth 5/6, plain / prefix / memTree+memVal; the operations of the unsaved batch are part of the state because queries memoise data in the tree): after every Save every saved root is loaded afresh and read, Save's root == Hash() just before it. (a) BFS over all histories of write batches (non-empty values v1/v2 over a colliding key alphabet with the empty key, binary keys and shared prefixes; batch sizes 1..3) chained root to root on the real mavl Store; a state = (list of committed roots, raw database content). After every batch and for every root committed so far: Store.Get of every alphabet key, both unbounded scans, Tree.Size, AVL invariants, and for the newest root Store.IterateRangeByStateHash and Tree.IterateRangeInclusive (end key included) for every start,end in alphabet+nil in both directions; all repeated after a restart (memdb: new Store object + caches dropped; goleveldb: close and reopen). Plus the deterministic large-batch family (N keys x 4 insertion orders x batch sizes {2N keys at once, 16, 1}, then overwritten in another order). distinct = rebalancing cases (LL/LR/RR/RL/none/overwrite depth), batch sizes, old-root-differs classes, large-tree heights observed"
 	r.Assume = []string{"values are non-empty (an empty value and 'nothing' are both nil through Store.Get)", "histories contain writes only (the store API has no delete)", "sha256 collisions do not occur", "large family: older roots are re-read in full at checkpoints (every root by point reads while <=40 roots, every 64th batch beyond), not after every single batch"}
 
 	k5 := []string{"", "a", "ab", "a\xff", "b"}
